@@ -7,7 +7,7 @@ cd /repo && git diff --quiet || { echo "/repo working tree not clean"; exit 2; }
 missed=0
 for d in /verif/seeded/${PFX}*/; do
   id=$(basename "$d"); prop=${id%%-*}
-  case "$prop" in F*|A*) prop=$(python3 -c "import json;print(json.load(open('$d/meta.json'))['breaks_property'])");; esac
+  case "$prop" in F*|A*|M*) prop=$(python3 -c "import json;print(json.load(open('$d/meta.json'))['breaks_property'])");; esac
   cd /repo && git apply "$d/patch.diff" || { echo "$id: patch does not apply"; git checkout -- .; missed=1; continue; }
   cd /verif && ./check "$prop" --tier "$T" > "work/seed-$id.log" 2>&1; rc=$?
   cd /repo && git checkout -- .
